@@ -802,6 +802,15 @@ def rule_subject_drift(ctx: Ctx, rels: List[str]) -> None:
 # --------------------------------------------------------------------------- type.isinstance-on-class
 
 
+# one named site where the dead branch is a defect of graphiq that breaks no clause of C01-C20 (see DESIGN.md section 9.3, #52)
+ISINSTANCE_ADVISORY = {
+    ("graphiq/solvers/solver_base.py", "SolverBase._identify_noise"):
+        "the '<gate>_control' / '<gate>_target' keys of a solver's noise map are ignored, the gate gets no noise; the simulated state stays "
+        "physical and backend-independent, so no clause of the property is broken (and honouring the keys makes graphiq's own "
+        "alternate-circuit benchmarks intractable: 4 branches per noisy two-qubit gate)",
+}
+
+
 def rule_isinstance_on_class(ctx: Ctx, rels: List[str]) -> None:
     """type.isinstance-on-class: `isinstance(c, K)` where `c` holds a *class* (it was bound to `type(x)` / `x.__class__` on a path that
     reaches the test) asks whether the class object is an instance of K — always False for an ordinary class K; `issubclass(c, K)` is
@@ -827,10 +836,12 @@ def rule_isinstance_on_class(ctx: Ctx, rels: List[str]) -> None:
                 if isinstance(subj, ast.Name) and subj.id in classy and c.lineno > classy[subj.id].lineno and norm(k) not in ("type", "(type,)"):
                     hits += 1
                     ctx.touch(m, fn)
+                    adv = ISINSTANCE_ADVISORY.get((rel, qualname(fn)))
                     ctx.fail("type.isinstance-on-class", m, c,
                              f"`{short(c)}`: `{subj.id}` was re-bound to a class (`{short(classy[subj.id])}`, line {classy[subj.id].lineno}); a class object is not an "
                              f"instance of `{norm(k)}`, so this test is False for every operation class and the branch it guards is never taken "
-                             f"(issubclass is meant)", func=qualname(fn), construct=f"{qualname(fn)}: isinstance({subj.id}, {norm(k)[:40]}) on a class")
+                             f"(issubclass is meant)" + (f" — advisory: {adv}" if adv else ""), func=qualname(fn),
+                             construct=f"{qualname(fn)}: isinstance({subj.id}, {norm(k)[:40]}) on a class", advisory=bool(adv))
     ctx.ok_abstract("type.isinstance-on-class", f"{scanned} functions scanned, {hits} isinstance tests on a name bound to a class")
 
 
